@@ -172,6 +172,8 @@ type fnTrans struct {
 	lockSites     map[string][2]string // (lock-mode variable, object) pairs this function locks or unlocks
 	spawned       map[string]*FuncContract // contracts of the functions started with `go` in this function
 	cellFn        map[string]cellFnRec // local cells that hold a statically known closure (assigned exactly once)
+	shadowed      map[string]*FuncContract // repository functions under contract that were called through a scoped extern
+	dguard        Term                 // conditional defer being run: everything assumed / obliged holds when its defer statement was reached
 }
 
 func (t *fnTrans) errorf(f string, a ...interface{}) {
@@ -200,6 +202,9 @@ func (t *fnTrans) assume(text Term) {
 	if t.inl != nil {
 		text = fmt.Sprintf("(=> %s %s)", t.inl.cur, text)
 	}
+	if t.dguard != "" {
+		text = fmt.Sprintf("(=> %s %s)", t.dguard, text)
+	}
 	t.cons = append(t.cons, constraint{t.blk.Index, true, text})
 }
 func (t *fnTrans) define(text Term) {
@@ -218,6 +223,9 @@ func (t *fnTrans) posStr(p token.Pos) string {
 func (t *fnTrans) oblige(kind, name, desc string, cond Term, pos token.Pos) {
 	if cond == "true" {
 		return
+	}
+	if t.dguard != "" {
+		cond = fmt.Sprintf("(=> %s %s)", t.dguard, cond)
 	}
 	if t.inl != nil {
 		// inside an inlined callee: the obligation holds when that callee block is reached
@@ -1156,6 +1164,7 @@ func (t *fnTrans) pass() {
 	t.callSeq = 0
 	t.cellFn = nil
 	t.spawned = nil
+	t.shadowed = nil
 	t.lockSites = nil
 	t.loopHeadSt = nil
 	t.allowedDone, t.allowed, t.allowedAll = false, nil, false
